@@ -300,6 +300,7 @@ type Stats struct {
 	Wall        float64
 	Inner       int // evaluations made inside state oracles, all transitions
 	InnerNew    int // … on transitions that discovered a new canonical state
+	Paths       [][]Op // one history per distinct state (only with Extra["collect"])
 }
 
 func (s *Stats) Add(o Stats) {
@@ -445,6 +446,9 @@ func Explore(pool *Pool, spec Spec, deadline time.Time, maxViol int) (Stats, []F
 					seen[s.Key] = true
 					st.States++
 					st.InnerNew += s.Inner
+					if spec.Extra["collect"] == 1 {
+						st.Paths = append(st.Paths, p)
+					}
 					if st.Shapes == nil {
 						st.Shapes = map[string]int{}
 					}
